@@ -269,15 +269,26 @@ Proof.
     unfold loc_matches. destruct (e_private (loc_ext v)), (e_private (loc_ext v0)); cbn [nil_b negb orb]; apply beqb_refl. }
   destruct (beqb op (bs "loc_cmp")) eqn:E15; [|discriminate].
   apply some_inj in H; subst r. only_op E15. unfold passes.
-  destruct (spec_locale_zone (split (arg_n 0 args))) as [x| | |] eqn:Z0; try reflexivity.
-  destruct (spec_locale_zone (split (arg_n 1 args))) as [y| | |] eqn:Z1; try reflexivity.
+  assert (CORE : forall x y, loc_inv x = true -> loc_inv y = true ->
+            loc_eqb x y = beqb (loc_to_string x) (loc_to_string y)
+            /\ Bool.eqb (loc_eqb x y) (match loc_cmp x y with Eq => true | _ => false end) = true).
+  { intros x y I0 I1.
+    assert (EQ : loc_eqb x y = beqb (loc_to_string x) (loc_to_string y)).
+    { destruct (loc_eqb x y) eqn:A; destruct (beqb (loc_to_string x) (loc_to_string y)) eqn:B; try reflexivity.
+      - apply (loc_eq_iff_string x y I0 I1) in A. apply beqb_false in B. congruence.
+      - apply beqb_eq in B. apply (loc_eq_iff_string x y I0 I1) in B. congruence. }
+    split; [exact EQ|]. destruct (loc_eqb x y) eqn:A.
+    - apply loc_eqb_iff in A. subst y. rewrite (proj2 (loc_cmp_eq x x) eq_refl). reflexivity.
+    - destruct (loc_cmp x y) eqn:C; try reflexivity. apply loc_cmp_eq in C. subst y. rewrite loc_eqb_refl in A. discriminate. }
+  assert (LENIENT : cmp_consistent (match locale_from_bytes (arg_n 0 args), locale_from_bytes (arg_n 1 args) with
+                     | Ok x, Ok y => fmt_cmp (loc_cmp x y) ++ sp ++ fmt_bool (loc_eqb x y) ++ sp ++ fmt_bool (beqb (loc_to_string x) (loc_to_string y))
+                     | _, _ => bs "BADARG" end) = true).
+  { destruct (locale_from_bytes (arg_n 0 args)) as [x| | |] eqn:P0; try reflexivity.
+    destruct (locale_from_bytes (arg_n 1 args)) as [y| | |] eqn:P1; try reflexivity.
+    destruct (CORE x y (locale_parse_inv _ _ P0) (locale_parse_inv _ _ P1)) as [EQ CE]. rewrite <- EQ.
+    destruct (loc_cmp x y), (loc_eqb x y); try discriminate CE; reflexivity. }
+  destruct (spec_locale_zone (split (arg_n 0 args))) as [x| | |] eqn:Z0; try exact LENIENT.
+  destruct (spec_locale_zone (split (arg_n 1 args))) as [y| | |] eqn:Z1; try exact LENIENT.
   destruct (accepted _ _ Z0) as [P0 I0]. destruct (accepted _ _ Z1) as [P1 I1]. rewrite P0, P1. cbv zeta.
-  assert (EQ : loc_eqb x y = beqb (loc_to_string x) (loc_to_string y)).
-  { destruct (loc_eqb x y) eqn:A; destruct (beqb (loc_to_string x) (loc_to_string y)) eqn:B; try reflexivity.
-    - apply (loc_eq_iff_string x y I0 I1) in A. apply beqb_false in B. congruence.
-    - apply beqb_eq in B. apply (loc_eq_iff_string x y I0 I1) in B. congruence. }
-  rewrite EQ, beqb_refl. cbn [andb]. rewrite <- EQ.
-  destruct (loc_eqb x y) eqn:A.
-  - apply loc_eqb_iff in A. subst y. rewrite (proj2 (loc_cmp_eq x x) eq_refl). reflexivity.
-  - destruct (loc_cmp x y) eqn:C; try reflexivity. apply loc_cmp_eq in C. subst y. rewrite loc_eqb_refl in A. discriminate.
+  destruct (CORE x y I0 I1) as [EQ CE]. rewrite EQ, beqb_refl. cbn [andb]. rewrite <- EQ. exact CE.
 Qed.
